@@ -113,6 +113,15 @@ class Collection:
                     else:
                         parts.append("\n\n{|\n| [[File:%s|thumb|%s]]\n| %s\n|-\n| %s || %s\n|}\n" % (
                             name, word(), word(), word(), word()))
+            if self.images and rnd.random() < 0.4:
+                # one or two thumbnails closing a section, then (a heading and) a block that does not float
+                im = sorted(self.images)[0][5:]
+                thumbs = "\n".join("[[File:%s|thumb|%s]]" % (im, word()) for _ in range(rnd.choice((1, 1, 2))))
+                nxt = rnd.choice((lambda: "{|\n| %s || %s\n|}" % (word(), word()), lambda: " %s preformatted" % word(), lambda: "----",
+                                  lambda: "<center>[[File:%s|50px]]</center>" % im, lambda: "* %s\n* %s" % (word(), word()),
+                                  lambda: "<gallery>\nFile:%s|%s\n</gallery>" % (im, word())))()
+                head = ("== %s ==\n" % word()) if rnd.random() < 0.6 else ""
+                parts.append("\n\n%s\n\n%s\n%s%s\n\n%s\n" % (word(), thumbs, head, nxt, word()))
             if rnd.random() < 0.35:
                 # a cell spanning columns and rows, with real cells in the rows it spans
                 cs, rs = rnd.choice((2, 3)), rnd.choice((2, 3))
